@@ -32,6 +32,16 @@ pub const FLOAT_POOL: [u32; 22] = [
     0x7fc0_0000, 0x3a83_126f, 0x3dcc_cccd, 0x4f00_0000, 0xcf00_0000, 0x4b80_0000,
 ];
 pub fn gen_float(r: &mut Rng) -> f32 {
+    // the sign and payload of a NaN are not observable through the protocol (Lean's Float32.toBits
+    // canonicalises NaN): generated NaNs are the canonical positive quiet NaN
+    let x = gen_float_raw(r);
+    if x.is_nan() {
+        f32::from_bits(0x7fc0_0000)
+    } else {
+        x
+    }
+}
+fn gen_float_raw(r: &mut Rng) -> f32 {
     match r.below(10) {
         0..=3 => f32::from_bits(*r.pick(&FLOAT_POOL)),
         4..=6 => (r.range(-4000, 4000) as f32) / 8.0,
